@@ -69,17 +69,58 @@ func (e *Engine) domOf(v *Term) byteSet {
 }
 
 // noteAssumed updates domains / entanglement for a new PC conjunct.
+// Domains are maintained for every 8-bit variable from its unary conjuncts
+// (an over-approximation once the variable is entangled with others).
 func (e *Engine) noteAssumed(t *Term) {
 	if e.noByteDom {
 		return
 	}
 	if !t.multi && t.sv != nil && t.sv.w == 8 {
-		if !e.entangled[t.sv.id] {
-			e.dom[t.sv.id] = e.domOf(t.sv).and(e.truthTable(t))
-		}
+		e.dom[t.sv.id] = e.domOf(t.sv).and(e.truthTable(t))
 		return
 	}
 	e.entangleAll(t)
+	for _, v := range e.varsOf(t) {
+		e.multiConj[v] = append(e.multiConj[v], t)
+	}
+}
+
+// localSearch looks for a value of the single 8-bit variable b of c, inside
+// cand, such that every multi-variable conjunct mentioning b still holds with
+// the other variables as in the current model.  Success exhibits a model
+// (sound); failure says nothing.
+func (e *Engine) localSearch(b *Term, cand byteSet) (Model, bool) {
+	if !e.modelOK {
+		return nil, false
+	}
+	conj := e.multiConj[b.id]
+	m := e.modelWith(b, 0)
+	ev := &evaluator{m: m, cache: map[int32]uint64{}}
+	bad := false
+	ev.ufval = func(app *Term, args []uint64) uint64 { bad = true; return 0 }
+	for x := uint64(0); x < 256; x++ {
+		if !cand.has(x) {
+			continue
+		}
+		m[b.name] = x
+		for k := range ev.cache {
+			delete(ev.cache, k)
+		}
+		ok := true
+		for _, c := range conj {
+			if ev.eval(c) == 0 || bad {
+				ok = false
+				break
+			}
+		}
+		if bad {
+			return nil, false
+		}
+		if ok {
+			return m, true
+		}
+	}
+	return nil, false
 }
 
 func (e *Engine) entangleAll(t *Term) {
